@@ -256,6 +256,10 @@ func runC10(c *report.Ctx) {
 	ruleFlagByteRMW(c)
 	ruleMaturityPerTemplate(c)
 	ruleRelevantIndexStored(c)
+
+	// ---- the import path applies spends (and so withdrawals) of a transaction another wallet already recorded ----
+	c.Rule("import-applies-spends", "insertMinedTxForImporting passes updateMinedBalance on every success path (also when the transaction record already exists because another wallet shares the transaction): a withdrawal of the imported wallet's deposit is applied to its credit, history and balance", 1)
+	mustPass(c, fn(c, pkgTxmgr, "TxStore", "insertMinedTxForImporting"), an.Set(fn(c, pkgTxmgr, "TxStore", "updateMinedBalance")), "updateMinedBalance")
 }
 
 // ruleClassBits: bit masks OR-ed into byte 8 of a credit value by the writers vs the reader's decode.
